@@ -92,6 +92,9 @@ func (r *Report) Floor(rule string, n int) {
 }
 func (r *Report) Assume(s string) { r.Assumptions = append(r.Assumptions, s) }
 
+// minPackages: the real repository has 24 packages; fewer means the load is incomplete.
+var minPackages = 20
+
 // Ctx is the loaded program.
 type Ctx struct {
 	RepoDir string
@@ -141,8 +144,8 @@ func Load(repoDir, tier string) (*Ctx, error) {
 		}
 	}
 	sort.Slice(c.Pkgs, func(i, j int) bool { return c.Pkgs[i].PkgPath < c.Pkgs[j].PkgPath })
-	if len(c.Pkgs) < 20 {
-		return nil, fmt.Errorf("only %d repository packages loaded (expected >= 20)", len(c.Pkgs))
+	if len(c.Pkgs) < minPackages {
+		return nil, fmt.Errorf("only %d repository packages loaded (expected >= %d)", len(c.Pkgs), minPackages)
 	}
 	for _, p := range c.Pkgs {
 		for _, f := range p.Syntax {
